@@ -152,9 +152,12 @@ def check_reply(ctx, model):
     for hb, ht in hist:
         val = arg_origins(v, hb, ht, 3, taint=True)
         key = arg_origins(v, hb, ht, 2)
-        ctx.ob("C10-Q3", "%s|history-record" % REPLY, any(o.kind == "call" and o.a.endswith("checked_mul_floor") for o in val) and bool(key) and all(
+        # the recorded amount is the fee itself (what the DAO is sent), not the remainder computed from it
+        is_fee_value = any(o.kind == "call" and o.a.endswith("checked_mul_floor") for o in val) and not any(
+            o.kind == "call" and o.a.endswith("saturating_sub") for o in val)
+        ctx.ob("C10-Q3", "%s|history-record" % REPLY, is_fee_value and bool(key) and all(
             o.kind == "load" and o.a.endswith("::state::TMP_EPOCH") and tuple(o.proj) == ("id",) for o in key),
-            "TAKE_RATE_HISTORY[%s] <- fee: %s" % (sorted(map(repr, key)), any(o.kind == "call" and o.a.endswith("checked_mul_floor") for o in val)), v.where(hb))
+            "TAKE_RATE_HISTORY[%s] <- the take-rate fee itself: %s" % (sorted(map(repr, key)), is_fee_value), v.where(hb))
     # epoch.total == epoch.available == vector sent to the distributor
     tot = av = None
     for b, i, s in v.iter_stmts():
